@@ -238,7 +238,7 @@ func (w *cqWorld) finalCheck(x *sched.X) {
 		return
 	}
 	disc := w.disconnected()
-	backendAck, lastIdx := 0, -1
+	backendAck, lastIdx, missed := 0, -1, false
 	for _, pk := range w.backend.packets {
 		idx, off, carries := -1, 0, false
 		switch t := pk.(type) {
@@ -273,6 +273,7 @@ func (w *cqWorld) finalCheck(x *sched.X) {
 		if carries {
 			backendAck += off
 			if backendAck != w.cum[idx] && !disc {
+				missed = true
 				x.Fail("no-catch-up@"+org.kind+"-"+org.out, "after forwarding client packet %d (%s %s off=%d), which carries a last-seen update, the backend has received %d acknowledgements but the client had acknowledged %d\n%s",
 					idx, org.kind, org.out, org.off, backendAck, w.cum[idx], desc())
 			}
@@ -286,7 +287,7 @@ func (w *cqWorld) finalCheck(x *sched.X) {
 	if lag < 0 {
 		x.Fail("backend-ack-exceeds-client", "at quiescence the backend received %d acknowledgements, the client acknowledged %d\n%s", backendAck, total, desc())
 	}
-	if lag >= 40 && !disc {
+	if lag >= 40 && !disc && !missed { // a missed catch-up was already reported with its own key
 		x.Fail("lag>=40", "at quiescence the backend lags the client by %d acknowledgements (client %d, backend %d)\n%s", lag, total, backendAck, desc())
 	}
 	x.Outcome(fmt.Sprintf("delayed=%d lag=%d disc=%v", w.player.chatQueue.chatState.delayedAckCount.Load(), lag, disc))
@@ -431,9 +432,9 @@ func TestVerif(t *testing.T) {
 			schedrun.Run(r, cqDeepScenarios())
 			return
 		}
-		depth := 3
+		depth := 4
 		if r.Thorough() {
-			depth = 5
+			depth = 6
 		}
 		for _, fam := range fams {
 			st := &cqStats{}
